@@ -121,6 +121,9 @@ pub const TOGGLE_OFF: &[&str] = &[
     "(* PasFmt Off *)",
     "// pasfmt off because reasons",
     "{pasfmt Off}",
+    "//\tpasfmt off",
+    "{\tpasfmt\toff}",
+    "(*\x0cpasfmt off *)",
 ];
 pub const TOGGLE_ON: &[&str] = &[
     "// pasfmt on",
@@ -130,6 +133,9 @@ pub const TOGGLE_ON: &[&str] = &[
     "(* PasFmt On *)",
     "// pasfmt on again",
     "{pasfmt ON}",
+    "//\tpasfmt on",
+    "{\tpasfmt\ton}",
+    "(*\x0cpasfmt on *)",
 ];
 /// spellings that are not toggles
 pub const NON_TOGGLES: &[&str] = &[
